@@ -58,11 +58,12 @@ template <class T> static void behaves_like(T &obj, const char *cls, const char 
         /* byte_array overloads */
         ascon::byte_array bm = mk_ba(MSG, ml), bad = mk_ba(ADB, adl), bc(3, 0x55), bp(5, 0x66);
         obj.set_nonce(NONCE, 16);
-        if (adl) obj.encrypt(bc, bm, bad); else obj.encrypt(bc, bm);
+        /* with no associated data: alternately the two-argument overload and the three-argument one with an empty array */
+        if (adl || ((ai + li) & 1)) obj.encrypt(bc, bm, bad); else obj.encrypt(bc, bm);
         if (bc.size() != ml + 16 || memcmp(bc.data(), exp, ml + 16)) { hx_fail(kb, "encrypt(byte_array) result has size %zu / differs from the C function (adlen=%zu mlen=%zu)", bc.size(), adl, ml); return; }
         ascon::byte_array kept(bc), keptp;   /* copies the caller keeps: later calls that write into bc / bp must not change them */
         obj.set_nonce(NONCE, 16);
-        bool ok = adl ? obj.decrypt(bp, bc, bad) : obj.decrypt(bp, bc);
+        bool ok = (adl || ((ai + li) & 1)) ? obj.decrypt(bp, bc, bad) : obj.decrypt(bp, bc);
         if (!ok || bp.size() != ml || (ml && memcmp(bp.data(), MSG, ml))) { hx_fail(kb, "decrypt(byte_array) failed or returned %zu bytes (adlen=%zu mlen=%zu)", bp.size(), adl, ml); return; }
         keptp = bp;
         /* failure: cleared output and false */
@@ -152,12 +153,39 @@ template <class T> static void cipher_suite(const char *cls, int fam, int alg)
           if (o.set_key(junk, bad[i])) hx_fail(kb, "set_key with unsupported length %zu returned true", bad[i]);
       } hx_stat("evaluations", 9); }
 }
-template <class T> static void key_ctor(const char *cls, int fam, int alg) { T o(K); behaves_like(o, cls, "key-constructor", fam, alg, K); T z(0); behaves_like(z, cls, "key-constructor-null", fam, alg, ZK); }
+/* objects built in storage that held other bytes: every constructor documents an all-zero nonce (and an all-zero key for the default constructor and a NULL key),
+ * so the first packets without any set_nonce / set_counter must be the C results under nonce 0 and nonce 1 */
+#include <new>
+template <class T, class F> static void on_dirty_storage(const char *cls, const char *path, int fam, int alg, const unsigned char *key, F construct)
+{
+    char kb[96]; snprintf(kb, sizeof kb, "cpp:%s:%s:dirty-storage", cls, path);
+    static const unsigned char fills[] = {0xA5, 0xFF, 0x00};
+    for (unsigned f = 0; f < 3; f++) {
+        alignas(64) static unsigned char raw[1024]; memset(raw, fills[f], sizeof raw);
+        T *o = construct(raw);
+        unsigned char n0[16] = {0}, n1[16] = {0}, exp[64], out[64]; n1[15] = 1;
+        c_encrypt(fam, alg, key, n0, ADB, 3, MSG, 11, exp); hx_stat("evaluations", 2);
+        int r = o->encrypt(out, MSG, 11, ADB, 3);
+        if (r != 27 || memcmp(out, exp, 27)) { hx_fail(kb, "first packet of an object constructed in storage filled with %02x is not the C result under the all-zero nonce", fills[f]); o->~T(); return; }
+        c_encrypt(fam, alg, key, n1, 0, 0, MSG, 4, exp);
+        r = o->encrypt(out, MSG, 4, 0, 0);
+        if (r != 20 || memcmp(out, exp, 20)) { hx_fail(kb, "second packet of an object constructed in storage filled with %02x is not the C result under nonce 1", fills[f]); o->~T(); return; }
+        o->~T();
+    }
+    hx_stat("nontrivial", 1);
+}
+template <class T> static void key_ctor(const char *cls, int fam, int alg) {
+    on_dirty_storage<T>(cls, "key-constructor", fam, alg, K, [](void *p) { return new (p) T(K); });
+    on_dirty_storage<T>(cls, "key-constructor-null", fam, alg, ZK, [](void *p) { return new (p) T((const unsigned char *)0); });
+    on_dirty_storage<T>(cls, "default-constructor", fam, alg, ZK, [](void *p) { return new (p) T(); }); T o(K); behaves_like(o, cls, "key-constructor", fam, alg, K); T z(0); behaves_like(z, cls, "key-constructor-null", fam, alg, ZK); }
 template <class T> static void masked_extra(const char *cls, int alg) { { T q(K); keeps_nonce(q, cls, "randomize_key", 1, alg, K, [&](T &x) { x.randomize_key(); return true; }); } T o(K); o.randomize_key(); behaves_like(o, cls, "key-constructor+randomize_key", 1, alg, K); o.randomize_key(); o.randomize_key(); behaves_like(o, cls, "randomize_key-x3", 1, alg, K); }
 template <class T> static void isap_extra(const char *cls, int alg)
 {
     size_t kl = (size_t)ref_isap_keylen(alg); char kb[96]; snprintf(kb, sizeof kb, "cpp:%s", cls);
     unsigned char blob[80], cblob[80]; api_isap_key pk; api_isap_init[alg](&pk, K); api_isap_save[alg](&pk, cblob); api_isap_free[alg](&pk);
+    on_dirty_storage<T>(cls, "key-constructor", 3, alg, K, [&](void *p) { return new (p) T(K, kl); });
+    on_dirty_storage<T>(cls, "key-constructor-null-0", 3, alg, ZK, [](void *p) { return new (p) T((const unsigned char *)0, 0); });
+    on_dirty_storage<T>(cls, "default-constructor", 3, alg, ZK, [](void *p) { return new (p) T(); });
     { T o(K, kl); behaves_like(o, cls, "key-constructor", 3, alg, K); o.save_key(blob); if (memcmp(blob, cblob, 80)) hx_fail(kb, "save_key differs from the C function"); }
     { T o(0, 0); behaves_like(o, cls, "key-constructor-null-0", 3, alg, ZK); }
     { T o(K, 0); behaves_like(o, cls, "key-constructor-nonnull-0", 3, alg, ZK); }
